@@ -19,10 +19,16 @@ from twisted.spread import jelly
 HEADLINE = "TwistedProps.C45.only_allowed_resolved"
 RULE = ("grammar-based s-expressions over every jelly type tag (bytes and str tags), names of real dangerous callables "
         "(os.system, subprocess.Popen, builtins.eval, re-exports of them through an allowed module, submodules, nested "
-        "classes, metaclass classes), registry/factory tags, reference/dereference with small id pools, malformed shapes; "
+        "classes, metaclass classes, a subclass of an allowable class), registry/factory tags, reference/dereference with "
+        "small id pools, malformed shapes; "
         "policies built through the SecurityOptions API (allowTypes/allowModules/allowInstancesOf/allowBasicTypes) from "
-        "random subsets; random allowed object graphs for the round trip (lists, tuples, sets, frozensets, dicts, instances "
-        "with and without __setstate__, an instance's state object possibly a node of the graph itself; shared and cyclic), "
+        "random subsets, every argument form the API accepts (type names as bytes / str / class objects, modules as bytes / "
+        "str / module objects whose __package__ differs from their __name__); random allowed object graphs for the round "
+        "trip (lists, tuples, sets, frozensets, dicts, instances with and without __setstate__, of a subclass, of a "
+        "Jellyable serialised through jellyFor, an instance's state object possibly a node of the graph itself, bound "
+        "methods of instances of the graph; every leaf kind - bytes, int, str, None, bool, float, Decimal, date, time, "
+        "datetime, timedelta, class, function, module - with empty / zero / negative / large / microsecond values; shared "
+        "and cyclic; with the policy passed or with jelly()/unjelly()'s default taster), "
         "each run through the real jelly/unjelly and through the heap model; distinct = (op, outcome class, set of type tags "
         "used, which event kinds occurred, quirk flag) / for round trips (outcome, container kinds, number of references)")
 ASSUMES = [
@@ -32,15 +38,24 @@ ASSUMES = [
     "modules, classes and types only",
     "payloads of the scalar atoms (decimal, datetime, date, time, timedelta) are well-formed or absent",
     "no persistentLoad / invoker; registered unjellyable classes have no postUnjelly",
+    "a module object given to allowModules stands for its __name__ (oracle: table MODULE_OBJ_NAME; model: ModArg.obj); "
+    "a class object given to allowTypes allows nothing (its str key never equals a bytes type name)",
+    "the oracle's type-tag clause: a list / tuple / dict / function / class / module in the result needs the tag that "
+    "builds it (list, tuple, dictionary, function or method, class, module) among the allowed types; sets, frozensets "
+    "and scalars are allowed by SecurityOptions() itself",
     "inputs on which a NotKnown placeholder flows into a set, a dict key, a reference binding or a method self "
     "(model flag q=1) are compared by inclusion (implementation events a prefix of the model's, returned descriptors a "
     "subset): there the model is an over-approximation of the in-place patching",
-    "dictionary keys inside one dictionary are distinct",
+    "dictionary keys inside one dictionary are distinct; elements of one set / frozenset that are == (1, True, 1.0) "
+    "are merged by Python and kept apart by the model: the tie accepts fewer bool/int/float/decimal descriptors there",
     "reference ids are compared structurally by the model: an int id and a numerically equal float id (1 and 1.0, one "
     "dict key in Python) are not mixed in one s-expression",
     "round trip (heap model): leaves (None, str, bool, Decimal, dates, classes, functions, modules) are identified with "
-    "their jelly [tag, atom...] - the per-leaf conversions are checked by the oracle on the real objects only; bound "
-    "methods, Jellyable/Unjellyable hooks and persistentStore are not in the heap model; dict keys / set elements are "
+    "their jelly [tag, atom...] - the per-leaf conversions are checked by the oracle on the real objects only (== on the "
+    "values, so Decimal('-0') == Decimal('0'); NaN decimals and datetimes with tzinfo are not generated); bound methods "
+    "are not in the heap model (graphs holding one are oracle-only; only methods whose function is in the instance's own "
+    "class __dict__, never as a dict key / set element); a Jellyable instance is the heap instance whose state is its "
+    "__dict__ (jellyFor = prepare / [qual, jelly(getStateFor)] / preserve); Unjellyable hooks and persistentStore are not in the heap model; dict keys / set elements are "
     "compared as model references (same leaf or same object), Python == between distinct references is not modelled",
     "round trip theorem jelly_unjelly_roundtrip_partial: the graph is acyclic (a rank decreases along every edge) and "
     "well formed (RT.WF); cyclic graphs are covered by the differential tie and the oracle only",
@@ -51,7 +66,9 @@ MANIFEST = {
             "resolved, every module imported and every class instantiated by the model of _Unjellier is allowed by the "
             "policy (or registered), and so is every class/module/instance in the result; model tied to jelly.py by "
             "differential runs with instrumented namedAny/namedObject/_createBlank/__import__; oracle checks the same on "
-            "the real objects. Round trip: heap model of _Jellier (prepare/preserve/_cook) and of _Unjellier with crefutil's "
+            "the real objects, and that every container / function / class / module in the result needs an allowed type "
+            "tag. The policy API in every argument form is modelled (Policy.allowModuleArgs / allowTypeArgs) and proved to "
+            "allow exactly what the arguments name (allowModuleArgs_exact, allowTypeArgs_classes_nothing). Round trip: heap model of _Jellier (prepare/preserve/_cook) and of _Unjellier with crefutil's "
             "NotKnown patching (TwistedModel/Spread/JellyHeap.lean), tied to the real jelly/unjelly on every random graph "
             "(same s-expression, isomorphic result); theorem jelly_unjelly_roundtrip_partial: for every acyclic graph with "
             "arbitrary sharing unjelly(jelly(g)) is an isomorphic copy (simulation proof, induction on the jellier's "
@@ -98,6 +115,8 @@ def _install_world():
     attrval = _Other()
     A = mkcls("c45safe", "A", ns={"meth": mkfunc("c45safe", "A.meth"), "Nested": Nested, "attrval": attrval})
     B = mkcls("c45safe", "B")
+    ASub = mkcls("c45safe", "ASub", bases=(A,))          # a subclass of an allowable class, defines nothing itself
+    J = mkcls("c45safe", "J", bases=(jelly.Jellyable,))  # serialised through the `jellyFor` hook
 
     def __setstate__(self, state):
         self.st = state
@@ -117,7 +136,8 @@ def _install_world():
     RP = mkcls("c45safe", "RP", ns={"__init__": rp_init})
     const = _Other()
     lst = []
-    for k, v in dict(A=A, B=B, S=S, Hidden=Hidden, Meta=Meta, RC=RC, RP=RP, func=mkfunc("c45safe", "func"),
+    safe.__package__, sub.__package__, evil.__package__ = "c45safe", "c45safe", ""     # as the import system sets them
+    for k, v in dict(A=A, B=B, ASub=ASub, J=J, S=S, Hidden=Hidden, Meta=Meta, RC=RC, RP=RP, func=mkfunc("c45safe", "func"),
                      system=os.system, Popen=subprocess.Popen, os=os, const=const, lst=lst, sub=sub).items():
         setattr(safe, k, v)
     sub.C = mkcls("c45safe.sub", "C")
@@ -137,7 +157,8 @@ _OTHER_IDS = {}
 OBJ_PATHS = {
     "c45safe": ("c45safe",), "c45safe.sub": ("c45safe.sub",), "c45evil": ("c45evil",), "os": ("os",),
     "posixpath": ("os.path",), "subprocess": ("subprocess",), "builtins": ("builtins",),
-    "c45safe.A": ("c45safe", "A"), "c45safe.B": ("c45safe", "B"), "c45safe.S": ("c45safe", "S"),
+    "c45safe.A": ("c45safe", "A"), "c45safe.B": ("c45safe", "B"), "c45safe.ASub": ("c45safe", "ASub"),
+    "c45safe.J": ("c45safe", "J"), "c45safe.S": ("c45safe", "S"),
     "c45safe.Hidden": ("c45safe", "Hidden"), "c45safe.Meta": ("c45safe", "Meta"), "c45safe.RC": ("c45safe", "RC"),
     "c45safe.RP": ("c45safe", "RP"), "c45safe.A.Nested": ("c45safe", "A", "Nested"),
     "c45safe.sub.C": ("c45safe.sub", "C"), "c45evil.E": ("c45evil", "E"), "subprocess.Popen": ("subprocess", "Popen"),
@@ -147,11 +168,11 @@ OBJ_PATHS = {
     "builtins.eval": ("builtins", "eval"), "builtins.exec": ("builtins", "exec"),
     "c45safe.const": ("c45safe", "const"), "c45safe.lst": ("c45safe", "lst"), "c45safe.A.attrval": ("c45safe", "A", "attrval"),
 }
-PROBE_ATTRS = ["A", "B", "S", "Hidden", "Meta", "RC", "RP", "func", "system", "Popen", "os", "const", "lst", "sub",
+PROBE_ATTRS = ["A", "B", "ASub", "J", "S", "Hidden", "Meta", "RC", "RP", "func", "system", "Popen", "os", "const", "lst", "sub",
                "C", "g", "E", "pwn", "path", "getcwd", "join", "call", "eval", "exec", "meth", "Nested", "attrval", "nosuch"]
 PROBE_IMPORTS = ["c45safe", "c45safe.sub", "c45evil", "os", "os.path", "subprocess", "builtins",
                  "c45safe.A", "c45safe.nosuch", "c45nomod", "c45safe.func", "os.system", "c45evil.E"]
-CLASS_IDS = ["c45safe.A", "c45safe.B", "c45safe.S", "c45safe.Hidden", "c45safe.Meta", "c45safe.RC", "c45safe.RP",
+CLASS_IDS = ["c45safe.A", "c45safe.B", "c45safe.ASub", "c45safe.J", "c45safe.S", "c45safe.Hidden", "c45safe.Meta", "c45safe.RC", "c45safe.RP",
              "c45safe.A.Nested", "c45safe.sub.C", "c45evil.E", "subprocess.Popen"]
 
 
@@ -260,18 +281,35 @@ def B(s):
     return {"b": (s if isinstance(s, bytes) else s.encode("utf-8")).hex()}
 
 
+# how a policy op passes its arguments to the SecurityOptions API (every form the API accepts):
+#   T / M   bytes            Ts / Ms  the same names as str           Mo  module objects (allowed by their `__name__`)
+#   Tc      class objects to allowTypes: stored under the *str* `qual(cls)`, a key no (bytes) type name ever equals -
+#           and a dotted type name passes `isTypeAllowed` anyway: allows nothing new
+# the name a module object stands for is taken from this table by the oracle (the case alone), never from
+# SecurityOptions; the model has its own reading of each form (`Policy.allowModuleArgs` / `allowTypeArgs`)
+MODULE_OBJ_NAME = {"c45safe": "c45safe", "c45safe.sub": "c45safe.sub", "c45evil": "c45evil", "os": "os",
+                   "posixpath": "posixpath", "subprocess": "subprocess", "builtins": "builtins"}
+
+
+def op_module_names(op):
+    """the module names (bytes) an M / Ms / Mo op allows"""
+    if op[0] in ("M", "Ms"):
+        return [bytes.fromhex(h) for h in op[1]]
+    if op[0] == "Mo":
+        return [MODULE_OBJ_NAME[k].encode() for k in op[1]]
+    return []
+
+
 def policy_token(ops):
-    if not ops:
-        return "-"
     toks = []
     for op in ops:
         if op[0] == "B":
             toks.append("B")
-        elif op[0] in "TM":
+        elif op[0] in ("T", "Ts", "M", "Ms"):
             toks.append(op[0] + ":" + ",".join("x" + bytes.fromhex(h).hex() for h in op[1]))
-        else:
-            toks.append("I:" + ",".join(op[1]))
-    return ";".join(toks)
+        else:      # Mo / Tc / I: object ids (the model decides what allowing such an object means)
+            toks.append(op[0] + ":" + ",".join(op[1]))
+    return ";".join(toks) if toks else "-"
 
 
 def reg_token(reg):
@@ -288,6 +326,8 @@ def model_line(c):
         tokens(c["sexp"], t)
         return f"unjelly {policy_token(c['policy'])} {reg_token(c['reg'])} {','.join(t)}"
     if c["op"] == "roundtrip":
+        if _has_methods(c):
+            return None      # bound methods (`method` atom, `_InstanceMethod`) are not in the heap model: oracle only
         try:
             root, nodes = extract_heap(_graph_for(c))
         except ValueError:
@@ -304,8 +344,16 @@ def build_policy(ops):
             p.allowBasicTypes()
         elif op[0] == "T":
             p.allowTypes(*[bytes.fromhex(h) for h in op[1]])
+        elif op[0] == "Ts":
+            p.allowTypes(*[bytes.fromhex(h).decode("utf-8") for h in op[1]])
+        elif op[0] == "Tc":
+            p.allowTypes(*[obj_of(k) for k in op[1]])
         elif op[0] == "M":
             p.allowModules(*[bytes.fromhex(h) for h in op[1]])
+        elif op[0] == "Ms":
+            p.allowModules(*[bytes.fromhex(h).decode("utf-8") for h in op[1]])
+        elif op[0] == "Mo":
+            p.allowModules(*[obj_of(k) for k in op[1]])
         else:
             p.allowInstancesOf(*[obj_of(k) for k in op[1]])
     return p
@@ -320,10 +368,12 @@ def allowed_sets(ops, reg):
     for op in ops:
         if op[0] == "B":
             ts |= {t.encode() for t in basic}
-        elif op[0] == "T":
+        elif op[0] in ("T", "Ts"):
             ts |= {bytes.fromhex(h) for h in op[1]}
-        elif op[0] == "M":
-            ms |= {bytes.fromhex(h) for h in op[1]}
+        elif op[0] == "Tc":
+            ts |= {QUAL.get(k, k).encode() for k in op[1]}
+        elif op[0] in ("M", "Ms", "Mo"):
+            ms |= set(op_module_names(op))
         else:
             ts |= {t.encode() for t in basic + ["instance", "class", "classobj", "module"]}
             for k in op[1]:
@@ -548,6 +598,16 @@ def _split(out):
     return head, ([] if ev == "-" else ev.split(";")), (set() if res == "-" else set(res.split(","))), q
 
 
+def _res_match(c, ires, mres):
+    """result descriptors agree; a set / frozenset / dict merges elements that are `==` (1, True, 1.0, Decimal(1)),
+    which the model keeps apart: there the implementation may show fewer of these number kinds, nothing else"""
+    if ires == mres:
+        return True
+    used = set()
+    _tags_used(c["sexp"], used)
+    return bool(used & {"set", "frozenset", "dictionary"}) and ires <= mres and mres - ires <= {"bool", "int", "float", "decimal"}
+
+
 def compare(c, impl_out, model_out):
     if c["op"] == "roundtrip":
         return compare_roundtrip(impl_out, model_out)
@@ -556,7 +616,7 @@ def compare(c, impl_out, model_out):
     ih, iev, ires, _ = _split(impl_out)
     mh, mev, mres, q = _split(model_out)
     if q == "0":
-        return (ih, iev, ires) == (mh, mev, mres)
+        return (ih, iev) == (mh, mev) and _res_match(c, ires, mres)
     if q != "1":
         return False
     # over-approximation: the implementation may have raised earlier (while patching placeholders in place)
@@ -592,6 +652,17 @@ def oracle(c, out):
             return {"key": "instantiate-not-allowed", "detail": f"instantiated {obj_id(v)}; allowed classes {cs} registered {regs}"}
     if info["ok"]:
         for o in reachable([info["result"]] + info["refs"]):
+            # "built only from types the policy allows": a container / function / class / module in the result was
+            # made by the handler of a type tag, and that tag must be one the policy allows
+            need = _CONTAINER_TAG.get(type(o))
+            if isinstance(o, types.ModuleType):
+                need = b"module"
+            elif isinstance(o, type):
+                need = b"class"
+            elif isinstance(o, (types.FunctionType, types.BuiltinFunctionType)):
+                need = b"function" if b"function" in ts else b"method"      # `[method, name, [None], cls]` gives the function
+            if need is not None and need not in ts:
+                return {"key": "type-not-allowed", "detail": f"result holds a {type(o).__name__} but the type {need!r} is not allowed; allowed types {sorted(ts)}"}
             if isinstance(o, types.ModuleType):
                 if not any(o is m for m in mods_ok):
                     return {"key": "returns-module-not-allowed", "detail": f"result holds module {o.__name__}; allowed modules {sorted(ms)}"}
@@ -608,28 +679,37 @@ def oracle(c, out):
 # round trip of allowed object graphs
 
 RT_POLICY = [["B"], ["T", [t.encode().hex() for t in ("function", "method")]],
-             ["I", ["c45safe.A", "c45safe.B", "c45safe.S"]]]
-_ATOMS = ("bytes", "int", "str", "none", "bool", "float", "decimal", "date", "class", "func", "module")
+             ["I", ["c45safe.A", "c45safe.B", "c45safe.S", "c45safe.ASub", "c45safe.J"]]]
+_ATOMS = ("bytes", "int", "str", "none", "bool", "float", "decimal", "date", "time", "datetime", "timedelta",
+          "class", "func", "module")
+_INTS = (0, -1, 2 ** 31, -(2 ** 63) - 1, 10 ** 30)
+_DECIMALS = ("0.25", "-1.75", "0", "-0.001", "1E+3", "-12345678901234567890.5", "7", "-7E-12")
 
 
 def _atom_value(n):
     k, v = n["k"], n.get("v", 0)
     if k == "bytes":
-        return b"b%d" % v
+        return b"b%d" % v if v else b""
     if k == "int":
-        return v * 1000003
+        return v * 1000003 if v < 4 else _INTS[v % len(_INTS)]
     if k == "str":
-        return "sé%d" % v
+        return "sé%d" % v if v else ""
     if k == "none":
         return None
     if k == "bool":
         return bool(v % 2)
     if k == "float":
-        return v + 0.5
+        return v + 0.5 if v % 2 == 0 else -v / 8
     if k == "decimal":
-        return decimal.Decimal(v * 7 + 1) / 4
+        return decimal.Decimal(_DECIMALS[v % len(_DECIMALS)])
     if k == "date":
-        return datetime.date(2000 + v % 50, 1 + v % 12, 1 + v % 28)
+        return datetime.date(2000 + v % 50, 1 + v % 12, 1 + v % 28) if v else datetime.date.min
+    if k == "time":
+        return datetime.time(v, 59 - v, v * 7, v * 142857 % 1000000)
+    if k == "datetime":
+        return datetime.datetime(1999 + v, 12 - v, 1 + v * 3, 23 - v, v, 59, 999999 - v * 100000 if v % 2 else 0)
+    if k == "timedelta":
+        return datetime.timedelta(days=-v if v % 2 else v * 400, seconds=86399 - v, microseconds=v * 111111)
     if k == "class":
         return obj_of(["c45safe.A", "c45safe.B"][v % 2])
     if k == "func":
@@ -656,6 +736,10 @@ def build_graph(g):
             objs[i] = cls.__new__(cls)
         elif k in _ATOMS:
             objs[i] = _atom_value(n)
+    for i, n in enumerate(nodes):
+        if n["k"] == "meth":
+            # a bound method of an instance of the graph (the function is in the instance's own class `__dict__`)
+            objs[i] = objs[n["e"][0]].meth
     building = set()
 
     def imm(i):
@@ -733,6 +817,11 @@ def _iso_solve(work, fwd, bwd, lax=False):
         elif t in (types.ModuleType, type, types.FunctionType):
             if a is not b:
                 return False
+        elif t is types.MethodType:
+            # a bound method has no identity of its own: the same function, bound to the corresponding object
+            if a.__func__ is not b.__func__:
+                return False
+            work.append((a.__self__, b.__self__))
         elif isinstance(a, NotKnown):
             continue          # only when two *results* are compared (tie): an original graph holds no NotKnown
         elif a != b:
@@ -795,8 +884,14 @@ _SHAPE = {list: "L", tuple: "T", set: "S", frozenset: "F", dict: "D"}
 
 
 def _instance_state(o):
-    """what `_Jellier.jelly` serialises as the state of an instance"""
+    """what `_Jellier.jelly` serialises as the state of an instance (`Jellyable.getStateFor`: always the `__dict__`)"""
+    if isinstance(o, jelly.Jellyable):
+        return o.__dict__
     return o.__getstate__() if hasattr(o, "__getstate__") else o.__dict__
+
+
+def _has_methods(c):
+    return any(n["k"] == "meth" for n in c["graph"]["nodes"])
 
 
 def extract_heap(root):
@@ -951,6 +1046,8 @@ def _mentions_open_state(j):
                     for y in kv:
                         walk(y, open_ids)
             return False
+        if t == b"method" and len(x) == 4:
+            return walk(x[2], open_ids)       # the method's self: an `_InstanceMethod` placeholder while self is one
         if b"." in t and len(x) == 2:
             if walk(x[1], open_ids):
                 found.append(t)
@@ -968,15 +1065,17 @@ def _run_roundtrip(c):
         info["out"] = "unbuildable"
         return info
     pol = build_policy(RT_POLICY)
+    # "taster": "default" - `jelly.jelly(obj)` / `jelly.unjelly(sexp)` with no policy argument: everything is allowed
+    args = () if c.get("taster") == "default" else (pol,)
     jt = "-"
     with warnings.catch_warnings():
         warnings.simplefilter("ignore")
         try:
-            j = jelly.jelly(obj, pol)
+            j = jelly.jelly(obj, *args)
             toks = []
             sexp_tokens(j, toks)
             jt = ",".join(toks)
-            back = jelly.unjelly(j, pol)
+            back = jelly.unjelly(j, *args)
         except RecursionError:
             raise
         except Exception as e:  # noqa: BLE001
@@ -986,7 +1085,10 @@ def _run_roundtrip(c):
                             "detail": f"jelly/unjelly of an allowed graph raised {type(e).__name__}: {e}"}
             return info
     r = _iso(obj, back, {}, {})
-    root, nodes = extract_heap(back)
+    if _has_methods(c):
+        root, nodes = "-", "-"
+    else:
+        root, nodes = extract_heap(back)
     info["out"] = f"{'preserved' if r is None else 'changed'} j={jt} r={root} {nodes}"
     if r:
         if _mentions_open_state(j):
@@ -1003,7 +1105,7 @@ def _run_roundtrip(c):
 # ----------------------------------------------------------------------------------------
 # generation
 
-SAFE_NAMES = ["c45safe.A", "c45safe.B", "c45safe.S", "c45safe.Hidden", "c45safe.Meta", "c45safe.RC", "c45safe.func",
+SAFE_NAMES = ["c45safe.A", "c45safe.B", "c45safe.ASub", "c45safe.J", "c45safe.S", "c45safe.Hidden", "c45safe.Meta", "c45safe.RC", "c45safe.func",
               "c45safe.system", "c45safe.Popen", "c45safe.os", "c45safe.const", "c45safe.lst", "c45safe.sub",
               "c45safe.sub.C", "c45safe.sub.g", "c45safe.nosuch", "c45safe.A.meth", "c45safe.A.Nested", "c45safe.os.system"]
 DANGER_NAMES = ["os.system", "subprocess.Popen", "builtins.eval", "builtins.exec", "os.path.join", "os.path", "os",
@@ -1013,7 +1115,8 @@ MODULE_POOL = ["c45safe", "c45safe.sub", "c45evil", "os", "os.path", "subprocess
                "c45nomod", "c45safe.nosuch", "c45safe.os"]
 TYPE_POOL = ["instance", "class", "module", "function", "method", "classobj", "int", "str", "foo"]
 INST_POOL = ["c45safe.A", "c45safe.B", "c45safe.S", "c45safe.sub.C", "c45evil.E", "c45safe.Hidden", "c45safe.A.Nested",
-             "subprocess.Popen"]
+             "subprocess.Popen", "c45safe.ASub", "c45safe.J"]
+MODULE_OBJ_POOL = ["c45safe", "c45safe.sub", "c45safe.sub", "c45evil", "os", "posixpath", "subprocess", "builtins"]
 REG_TAGS = [("c", b"c45safe.RCopy", "c45safe.RC", 1), ("c", b"c45tag", "c45safe.RC", 1), ("c", b"c45safe.RPlain", "c45safe.RP", 0),
             ("f", b"c45fac", "c45safe.RC"), ("f", b"c45safe.Fac", "c45safe.B")]
 HANDLERS = ["None", "unicode", "decimal", "boolean", "datetime", "date", "time", "timedelta", "dereference", "reference",
@@ -1030,9 +1133,18 @@ def gen_policy(rng):
         ops.append(["B"])
     if rng.random() < 0.85:
         k = rng.choice([1, 3, 5, len(TYPE_POOL)])
-        ops.append(["T", [t.encode().hex() for t in rng.sample(TYPE_POOL, min(k, len(TYPE_POOL)))]])
+        ops.append([rng.choice(["T", "T", "Ts"]), [t.encode().hex() for t in rng.sample(TYPE_POOL, min(k, len(TYPE_POOL)))]])
+    if rng.random() < 0.15:
+        ops.append(["Tc", rng.sample(INST_POOL, rng.choice([1, 2]))])
     if rng.random() < 0.8:
-        ops.append(["M", [m.encode().hex() for m in rng.sample(MODULE_POOL, rng.choice([1, 1, 2, 3, 5]))]])
+        # the three argument forms of allowModules: bytes, str, module objects (possibly several ops)
+        form = rng.choice(["M", "M", "Ms", "Mo", "Mo"])
+        if form == "Mo":
+            ops.append(["Mo", rng.sample(MODULE_OBJ_POOL, rng.choice([1, 1, 2, 3]))])
+            if rng.random() < 0.3:
+                ops.append(["M", [m.encode().hex() for m in rng.sample(MODULE_POOL, rng.choice([1, 2]))]])
+        else:
+            ops.append([form, [m.encode().hex() for m in rng.sample(MODULE_POOL, rng.choice([1, 1, 2, 3, 5]))]])
     if rng.random() < 0.7:
         ops.append(["I", rng.sample(INST_POOL, rng.choice([1, 1, 2, 3]))])
     rng.shuffle(ops)
@@ -1136,7 +1248,7 @@ class Gen:
 def gen_unjelly(rng):
     policy = gen_policy(rng)
     # names biased towards what this policy makes reachable
-    mods = [bytes.fromhex(h).decode() for op in policy if op[0] == "M" for h in op[1]]
+    mods = [m.decode() for op in policy for m in op_module_names(op)]
     mods += [k.rsplit(".", 1)[0] for op in policy if op[0] == "I" for k in op[1]]
     names = [n for n in SAFE_NAMES + DANGER_NAMES if ".".join(n.split(".")[:-1]) in mods] or SAFE_NAMES
     names = names + rng.sample(SAFE_NAMES + DANGER_NAMES, 4)
@@ -1146,17 +1258,25 @@ def gen_unjelly(rng):
 
 def gen_graph(rng):
     n = rng.choice([2, 3, 4, 6, 9, 12])
-    kinds = ["list", "list", "dict", "tuple", "tuple", "set", "frozenset", "inst:A", "inst:B", "inst:S"]
+    kinds = ["list", "list", "dict", "tuple", "tuple", "set", "frozenset", "inst:A", "inst:A", "inst:B", "inst:S",
+             "inst:ASub", "inst:J", "inst:J"]
     nodes = []
     for i in range(n):
         if rng.random() < 0.3 and i > 0:
-            nodes.append({"k": rng.choice(_ATOMS), "v": rng.randint(0, 3)})
+            nodes.append({"k": rng.choice(_ATOMS), "v": rng.randint(0, 7)})
         else:
             nodes.append({"k": rng.choice(kinds), "e": []})
+    if rng.random() < 0.25:
+        # bound methods `a.meth` of instances of the graph (A defines `meth` itself), as list / tuple elements,
+        # dict values and attribute values - never as a dict key or set element
+        owners = [i for i, x in enumerate(nodes) if x["k"] == "inst:A"]
+        for i in range(1, n):
+            if owners and "e" not in nodes[i] and rng.random() < 0.6:
+                nodes[i] = {"k": "meth", "e": [rng.choice(owners)]}
     hashable = [i for i, x in enumerate(nodes) if x["k"] in ("bytes", "int", "str") or x["k"].startswith("inst:")]
     for i, x in enumerate(nodes):
         k = x["k"]
-        if "e" not in x:
+        if "e" not in x or k == "meth":
             continue
         m = rng.choice([0, 1, 2, 2, 3])
         if k in ("set", "frozenset"):
@@ -1175,7 +1295,10 @@ def gen_graph(rng):
                 if cand:
                     x["st"] = rng.choice(cand)
                     x["e"] = []
-    return {"op": "roundtrip", "graph": {"nodes": nodes, "root": 0}}
+    c = {"op": "roundtrip", "graph": {"nodes": nodes, "root": 0}}
+    if rng.random() < 0.25:
+        c["taster"] = "default"
+    return c
 
 
 def corpus():
@@ -1222,6 +1345,39 @@ def corpus():
          [B("reference"), {"i": 1}, [B("list"), [B("reference"), {"i": 2}, [B("tuple"), [B("dereference"), {"i": 1}]]], [B("dereference"), {"i": 2}]]]},
         {"op": "unjelly", "policy": [["B"]], "reg": [], "sexp": [B("list"), [B("reference"), {"i": 1}, [B("None")]], [B("dereference"), {"i": 1}]]},
         {"op": "unjelly", "policy": [["B"], M("")], "reg": [], "sexp": [B("int"), {"i": 1}]},
+        # --- mutation audit M45 ---
+        # a module allowed as a module object: exactly its `__name__` (not its package, not what it is an attribute of)
+        {"op": "unjelly", "policy": [["B"], T("module", "function", "class"), ["Mo", ["c45safe.sub"]]], "reg": [], "sexp": [B("module"), B("c45safe")]},
+        {"op": "unjelly", "policy": [["B"], T("module", "function", "class"), ["Mo", ["c45safe.sub"]]], "reg": [], "sexp": [B("module"), B("c45safe.sub")]},
+        {"op": "unjelly", "policy": [["B"], T("module", "function", "class"), ["Mo", ["c45safe.sub"]]], "reg": [], "sexp": [B("function"), B("c45safe.func")]},
+        {"op": "unjelly", "policy": [["B"], T("module", "function", "class"), ["Mo", ["c45safe.sub"]]], "reg": [], "sexp": [B("function"), B("c45safe.sub.g")]},
+        {"op": "unjelly", "policy": [["Ts", [x.encode().hex() for x in ("module",)]], ["Mo", ["posixpath"]]], "reg": [], "sexp": [B("module"), B("os.path")]},
+        {"op": "unjelly", "policy": [["Ts", [x.encode().hex() for x in ("module",)]], ["Ms", [b"os.path".hex()]]], "reg": [], "sexp": [B("module"), B("os.path")]},
+        {"op": "unjelly", "policy": [["B"], ["Tc", ["c45safe.A"]]], "reg": [], "sexp": [B("c45safe.A"), D]},
+        # a subclass of an allowed class is not allowed (and the other way round)
+        {"op": "unjelly", "policy": [I("c45safe.A")], "reg": [], "sexp": [B("c45safe.ASub"), D]},
+        {"op": "unjelly", "policy": [I("c45safe.A")], "reg": [], "sexp": [B("class"), B("c45safe.ASub")]},
+        {"op": "unjelly", "policy": [I("c45safe.A")], "reg": [], "sexp": [B("instance"), [B("class"), B("c45safe.ASub")], D]},
+        {"op": "unjelly", "policy": [I("c45safe.ASub")], "reg": [], "sexp": [B("c45safe.A"), D]},
+        {"op": "unjelly", "policy": [I("c45safe.ASub"), T("method")], "reg": [],
+         "sexp": [B("method"), {"s": "meth"}, [B("None")], [B("class"), B("c45safe.ASub")]]},
+        # containers under a policy without the basic types
+        {"op": "unjelly", "policy": [], "reg": [], "sexp": [B("list"), {"i": 1}]},
+        {"op": "unjelly", "policy": [T("list")], "reg": [], "sexp": [B("list"), [B("tuple"), {"i": 1}]]},
+        {"op": "unjelly", "policy": [T("list")], "reg": [], "sexp": [B("list"), [B("set"), {"i": 1}], [B("dictionary")]]},
+        # round trip: leaf values at their boundaries
+        {"op": "roundtrip", "graph": {"nodes": [{"k": "list", "e": [1, 2, 3, 4, 5, 6]}, {"k": "decimal", "v": 1}, {"k": "decimal", "v": 5},
+                                                {"k": "time", "v": 6}, {"k": "datetime", "v": 1}, {"k": "timedelta", "v": 3}, {"k": "int", "v": 7}], "root": 0}},
+        {"op": "roundtrip", "graph": {"nodes": [{"k": "tuple", "e": [1, 2, 3, 4, 5]}, {"k": "bytes", "v": 0}, {"k": "str", "v": 0},
+                                                {"k": "date", "v": 0}, {"k": "float", "v": 3}, {"k": "decimal", "v": 2}], "root": 0}},
+        # bound methods: alone, of a shared instance, stored on its own instance (`_InstanceMethod`)
+        {"op": "roundtrip", "graph": {"nodes": [{"k": "list", "e": [1]}, {"k": "meth", "e": [2]}, {"k": "inst:A", "e": []}], "root": 0}},
+        {"op": "roundtrip", "graph": {"nodes": [{"k": "list", "e": [1, 2, 1]}, {"k": "meth", "e": [2]}, {"k": "inst:A", "e": [3]}, {"k": "int", "v": 2}], "root": 0}},
+        {"op": "roundtrip", "graph": {"nodes": [{"k": "inst:A", "e": [1, 0]}, {"k": "meth", "e": [0]}], "root": 0}},
+        # Jellyable (the `jellyFor` hook): shared, cyclic; a subclass instance; no taster argument at all
+        {"op": "roundtrip", "graph": {"nodes": [{"k": "list", "e": [1, 1, 2]}, {"k": "inst:J", "e": []}, {"k": "inst:J", "e": [2, 1]}], "root": 0}},
+        {"op": "roundtrip", "graph": {"nodes": [{"k": "inst:ASub", "e": [1, 0]}, {"k": "inst:A", "e": [0]}], "root": 0}},
+        {"op": "roundtrip", "taster": "default", "graph": {"nodes": [{"k": "list", "e": [1, 2, 1]}, {"k": "inst:A", "e": [2]}, {"k": "inst:J", "e": [1]}], "root": 0}},
     ]
     return cases
 
@@ -1257,7 +1413,7 @@ def tag(c, out):
         head, _, rest = out.partition(" j=")
         j = rest.partition(" r=")[0]
         kinds = sorted({n["k"] for n in c["graph"]["nodes"] if "e" in n})
-        return f"roundtrip:{head}|{'+'.join(kinds)}|ref{min(j.count('b:' + b'reference'.hex()), 3)}"
+        return f"roundtrip:{head}|{'+'.join(kinds)}|ref{min(j.count('b:' + b'reference'.hex()), 3)}|{c.get('taster', 'policy')}"
     if c["op"] != "unjelly":
         return c["op"] + ":" + out.split(" ")[0][:30]
     head, ev, res, _ = _split(out)
@@ -1273,16 +1429,16 @@ def shrink(c):
         nodes = g["nodes"]
         for i, n in enumerate(nodes):
             e = n.get("e")
-            if e:
+            if e and n["k"] != "meth":
                 step = 2 if n["k"] == "dict" else 1
                 for j in range(0, len(e), step):
                     nn = [dict(x) for x in nodes]
                     nn[i]["e"] = e[:j] + e[j + step:]
-                    yield {"op": "roundtrip", "graph": {"nodes": nn, "root": g["root"]}}
+                    yield dict(c, graph={"nodes": nn, "root": g["root"]})
         if len(nodes) > 1:
             last = len(nodes) - 1
             if g["root"] != last and all(last not in n.get("e", []) and n.get("st") != last for n in nodes[:-1]):
-                yield {"op": "roundtrip", "graph": {"nodes": [dict(x) for x in nodes[:-1]], "root": g["root"]}}
+                yield dict(c, graph={"nodes": [dict(x) for x in nodes[:-1]], "root": g["root"]})
         return
     if c["op"] != "unjelly":
         return
